@@ -157,7 +157,7 @@ def run_case(case, ctx):
              inexact=case["inexact"], lbfgsMem=case["lbfgsMem"], maxinneriters=case["maxinneriters"])
     ll0 = loglik(X, np.maximum(denote(M0), 0))
     # the algorithm is selected case-insensitively: every spelling behaves as the lower-case one
-    spell = [alg, alg.upper(), alg.capitalize(), alg][case["cseed"] % 4]
+    spell = [alg, alg.upper(), alg.capitalize(), alg][gen.pick(case) % 4]
     ctx.feat(alg_spelling=("lower" if spell == alg else "other"))
     opts = {"algorithm": spell, "stoptol": case["stoptol"], "maxinneriters": case["maxinneriters"], "printitn": case["printitn"], "printinneritn": 0}
     if case.get("stoptime") is not None:
